@@ -260,8 +260,17 @@ def _judge(ctx, root, case, sign, orig_signed, keyid, hk, top_name, top, h, sign
     if not failed and os.path.exists(top):
         with open(top, 'rb') as f:
             if f.read() == top_before:
-                # nothing had to be written to the top-level Manifest
+                # nothing had to be written to the top-level Manifest - provided
+                # that it still describes the tree
                 ctx.count('top_level_not_rewritten')
+                findings = update_post.check(root, os.path.basename(top), '',
+                                             ['SHA256', 'BLAKE2B'])
+                findings = [f for f in findings if f[0] not in ('covered-twice',)]
+                if findings and not case.get('_known_dups') and expect != 'failure':
+                    ctx.violation('written-entries-stale', 'update and save returned '
+                                  'without an error and left the top-level Manifest as it '
+                                  'was, but it does not describe the tree: %r'
+                                  % (findings[:3],), case, detail)
                 return
     if expect == 'failure':
         if not failed:
